@@ -63,7 +63,7 @@ def tmpl(I, name, v=2):
     if name.startswith('free'):
         return hole(I, 'x', int(name[4:]))
     if name == 'long':          # longer than the (small) receive buffer and its first doublings
-        return c(b'file: ') + hole(I, 'v', 2) + c(b'aaaaaaaaaaaaaaaaaaaaaaaaaaaaaaaa\nTitle: bbbbbbbbbbbbbbbbbbbbbbbb\nOK\nx: ') + hole(I, 'w', 1) + c(b'\nOK\n')
+        return c(b'file: ') + hole(I, 'v', 2) + c(b'aaaaaaaaaaaaaaaaaaaaaaaaaaaaaaaa\nTitle: bbbbbbbbbbbbbbbbbbbbbbbb\nOK\nx: ') + hole(I, 'w', 1) + c(b'cccccccccccc\nOK\ny: dddd\nOK\n')
     if name == 'longbin':
         return c(b'binary: 20\n') + hole(I, 'p', 2) + c(b'ABCDEFGHIJKLMNOPQR\nOK\nk: v\nOK\n')
     raise KeyError(name)
